@@ -97,7 +97,7 @@ func c11Scenarios(tier string) []Scenario {
 		T int64
 		n int
 	}
-	cfgs := []cfg{{2, 1}, {2, 2}, {3, 2}}
+	cfgs := []cfg{{2, 1}, {2, 2}, {3, 2}, {1, 3}}
 	if thorough {
 		cfgs = []cfg{{1, 1}, {2, 1}, {2, 2}, {2, 3}, {3, 1}, {3, 2}, {1, 3}}
 	}
